@@ -6,7 +6,8 @@ LEVEL = "model_checking"
 RULE = ("M: PowMine (one action per stretch of code between two hook points of worker.go) model-checked for NW<=3 (thorough 4) workers in modes "
         "always/never/either: a finder's send never blocks, nonce only if found, ErrCancelled only if cancelled, all workers finished at return, "
         "no stuck state; liveness under weak fairness: cancelled ~> returned, found ~> returned, returned ~> all goroutines gone. Vacuity control: "
-        "Cap=1 violates SendNeverBlocks. G: TLC simulation behaviours (modes always/never, 1..3 workers, cancel at arbitrary instants) are replayed "
+        "Cap=1 violates SendNeverBlocks. A: module PowMineInd states an inductive invariant of PowMine; Apalache discharges Init => IndInv, "
+        "IndInv /\\ Next => IndInv' and IndInv => safety clauses symbolically for NW=3 (thorough 1..6), all modes at once, with witness states as vacuity control. G: TLC simulation behaviours (modes always/never, 1..3 workers, cancel at arbitrary instants) are replayed "
         "as schedules on the real Mine of both PoW versions through blocking hooks. T: free-running executions (1..64 workers; cancel before the "
         "call, after a random delay, simultaneously with a find; targets from 'every lane qualifies' to unattainable). Every recorded execution is "
         "validated against PowMine by TLC (interleavings inferred, one action of look-ahead per process), incl. returned value, goroutine count "
@@ -162,6 +163,9 @@ def run(ctx):
     if "Invariant SendNeverBlocks is violated" not in r["out"]:
         raise vlib.Infra("vacuity control failed: Cap=1 does not violate SendNeverBlocks")
     ctx.notes.append("vacuity control: Cap=1 violates SendNeverBlocks in the model")
+    # A: the safety clauses by induction (Apalache), every mode at once, per worker count; control: Cap < NW breaks the base case
+    for nw in ((3,) if q else (1, 2, 3, 4, 5, 6)):
+        vlib.apalache_inductive(ctx, "PowMineInd", "CInit%d" % nw, witnesses=(("W2",) if q else ("W1", "W2", "W3", "W4")) if nw == 3 else ())
     # G: schedules from TLC behaviours
     scheds = []
     for nw in (1, 2, 3):
